@@ -68,6 +68,34 @@ def main():
             r = n.run([['threads', rec['category'], rec['detector'], pa, pb, str(rec.get('threads', 8)), str(rec.get('iterations', 300))]])[0]
             print('8 threads on two files -> %s' % (r,))
             same = r[0] != 'OK'
+        elif job == 'analyze_dir_files':
+            from . import dirlib as dl
+            import shutil
+            shm = '/dev/shm' if rec.get('listing_by_creation') and os.path.isdir('/dev/shm') else n.dir
+            root = tempfile.mkdtemp(prefix='solstat-verif-replay-', dir=shm)
+            try:
+                for nm, content in rec['files']:
+                    os.makedirs(os.path.dirname(os.path.join(root, nm)), exist_ok=True)
+                    open(os.path.join(root, nm), 'w').write(content)
+                class C_: pass
+                c_ = C_(); c_.native = n
+                got, want, raw = dl.native_union(c_, rec['category'], root, rec['patterns'])
+            finally:
+                shutil.rmtree(root, ignore_errors=True)
+            print('analyze_dir -> %r\nunion of the per-file results -> %r' % (got if got is not None else raw, want))
+            same = got is None or sorted(got) != sorted(want)
+        elif job == 'analyze_dir_layout':
+            root = os.path.join(n.dir, 'layout')
+            os.makedirs(root, exist_ok=True)
+            with open(os.path.join(root, rec['file_name']), 'w', encoding='utf-8', newline='') as fh:
+                fh.write(rec['source'])
+            r = n.run([['analyze_dir', rec['category'], root, rec['detector']]])[0]
+            got = []
+            if r[0] == 'OK':
+                for item in (r[1].split(';') if r[1] else []):
+                    got = [int(x) for x in item.split('|')[2].split(',') if x]
+            print('analyze_dir on a directory with this file -> lines %r ; the flagged constructs begin on lines %r' % (got if r[0] == 'OK' else r, rec['expected']))
+            same = r[0] != 'OK' or got != rec['expected']
         elif job == 'analyze_dir' and 'tree' in rec:
             from . import dirlib as dl
             from .checklib import Check
